@@ -388,7 +388,7 @@ func cmdCheck(args []string) int {
 	only := fs.String("entry", "", "run only this entry")
 	known := fs.String("known", "/verif/known_findings.json", "known findings file")
 	vrtPath := fs.String("vrt", "/verif/rt/vrt.go", "vrt runtime source")
-	budget := fs.Duration("budget", 0, "wall budget per entry (default 10m quick, 40m thorough)")
+	budget := fs.Duration("budget", 0, "wall budget per entry (default 10m quick, 60m thorough)")
 	noReplay := fs.Bool("noreplay", false, "skip native replay (debug)")
 	replayPath := fs.String("replay", "", "replay this counterexample file natively and exit")
 	verbose := fs.Bool("v", false, "verbose")
@@ -402,7 +402,7 @@ func cmdCheck(args []string) int {
 	if *budget == 0 {
 		*budget = 10 * time.Minute
 		if *tier == "thorough" {
-			*budget = 40 * time.Minute
+			*budget = 60 * time.Minute
 		}
 	}
 	fail := func(msg string) int {
